@@ -333,6 +333,7 @@ impl SPDCConfig {
         "Signal wavelength must be greater than Pump wavelength".into(),
       ));
     }
+    self.crystal.kind.validate()?;
     let deff = self.deff_pm_per_volt * PICO * M / V;
     let pump_spectrum_threshold = self.pump.spectrum_threshold.unwrap_or(1e-2);
     let crystal_theta_autocalc = self.crystal.theta_deg.is_auto();
